@@ -247,12 +247,8 @@ def _do_compress(w, o, fault_at=None, fault_kind=None):
             sr.close()
         except Exception:  # noqa
             pass
-    # an interrupted mtscomp.Writer never closes its thread pool: drop every reference to it (exception tracebacks hold
-    # the frames) and let the garbage collector terminate the pool, otherwise thousands of fault points leak threads
     if isinstance(r, BaseException):
         r = r.with_traceback(None)
-    del sr
-    gc.collect()
     if killed:
         return "fault"
     if r is ctx.CRASH:
@@ -332,8 +328,6 @@ def _do_scratch(w, o, fault_at=None):
             pass
     if isinstance(r, BaseException):
         r = r.with_traceback(None)
-    del sr
-    gc.collect()
     if killed:
         return "fault", (sdir or w.d) / w.bin.name
     if r is ctx.CRASH:
@@ -372,8 +366,40 @@ def _enumerate_scratch_faults(w, o, step):
     w.faulted = True
 
 
+_HYGIENE = False
+
+
+def _install_pool_hygiene():
+    """An interrupted mtscomp.Writer.write / Reader.tofile never closes its thread pool; with thousands of injected faults
+    per process the leaked threads exhaust the limit. Harness-side hygiene only: terminate the pool when the call is left
+    by an exception (nothing else about the dependency is changed)."""
+    global _HYGIENE
+    if _HYGIENE:
+        return
+    import mtscomp
+    for cls, name in ((mtscomp.Writer, "write"), (mtscomp.Reader, "tofile")):
+        orig = getattr(cls, name)
+
+        def make(orig=orig):
+            def wrapper(self, *a, **k):
+                try:
+                    return orig(self, *a, **k)
+                except BaseException:
+                    pool = getattr(self, "pool", None)
+                    if pool is not None:
+                        try:
+                            pool.close()
+                        except Exception:  # noqa
+                            pass
+                    raise
+            return wrapper
+        setattr(cls, name, make())
+    _HYGIENE = True
+
+
 def run_case(case, ctx):
     import mtscomp
+    _install_pool_hygiene()
     with rec.scratch_dir(ctx) as root:
         d = root / "w"
         d.mkdir()
